@@ -143,9 +143,8 @@ class Ctx:
         depth) and removed as a stand-alone body; None when there is nothing to inline"""
         from .inline import inline_calls
         from .facts import Crate
+        from .inline import desugar_adaptors
         paths = set(self.inline_policy())
-        if not paths:
-            return None
         crate = self.core
         done = {}
 
@@ -156,7 +155,12 @@ class Ctx:
             if b.path in done:
                 return done[b.path]
             done[b.path] = b            # cycle guard
-            nb = inline_calls(b, pick, crate, max_rounds=24, sub=lambda cb: resolved(cb, depth + 1) if depth < 4 else cb)
+            nb = inline_calls(b, pick, crate, max_rounds=24, sub=lambda cb: resolved(cb, depth + 1) if depth < 4 else cb) if paths else b
+            if b.kind != 'Closure' or True:
+                nb2 = desugar_adaptors(nb, crate)
+                if nb2 is not nb:
+                    nb2.inlined_from = set(getattr(nb, 'inlined_from', set())) | set(getattr(nb2, 'inlined_from', set()))
+                    nb = nb2
             done[b.path] = nb
             return nb
         bodies = []
@@ -173,6 +177,9 @@ class Ctx:
             bodies.append(nb.j)
         if not used:
             return None
+        # closures consumed by a desugared adaptor are analysed in place only
+        gone = {u for u in used if crate.body(u) is not None and crate.body(u).kind == 'Closure'}
+        bodies = [bj for bj in bodies if bj['path'] not in gone]
         for bj in bodies:
             for blk in bj['blocks']:
                 t = blk['term']
